@@ -433,3 +433,41 @@ def partial_api_histories(run, tier, log=print):
                                                   what='a partial lexer handled through morph / clone / spanned behaves differently from the model, in which the partial flag travels with the lexer (it commits an item the buffer does not determine, or stops waiting)'),
                               key='papi|' + rq)
     return dict(evaluations=n, failures=bad)
+
+
+def bump_boundary_probe(run, tier, log=print):
+    """C04 through Lexer::bump: whatever a bump does (succeeds, or panics and is caught), span() of a str lexer must stay on
+    char boundaries inside the source.  Real Lexer, two builds; the oracle is is_char_boundary on the reported span."""
+    bins = build_libcheck([c for c in LIBCFG[tier] if c[0] in ('dbg', 'rel_safe')])
+    reqs = []
+    for src in ['aé', 'ab λx', '#a #λ', 'ab中c', '😀x', 'ééé']:
+        b = src.encode('utf-8')
+        for nexts in (0, 1, 2):
+            for n in list(range(0, len(b) + 3)) + [USIZE_MAX, USIZE_MAX - 1, 2 ** 63]:
+                reqs.append('BUMP s %s %d %d' % (P.hexs(b), nexts, n))
+    n = bad = 0
+    for name, (binp, err) in bins.items():
+        if binp is None:
+            run.violation('libcheck-build', dict(config=name, stderr=err), no_input=True)
+            continue
+        out, rc = run_lib(binp, reqs)
+        for rq in reqs:
+            v = out.get(rq)
+            if v is None or not v.startswith('pre:'):
+                continue
+            n += 1
+            t = rq.split(' ')
+            src = bytes.fromhex(t[2]).decode('utf-8')
+            parts = v.split(' ')
+            s_, e_ = int(parts[2]), int(parts[3])
+            bounds = {0}
+            acc = 0
+            for ch in src:
+                acc += len(ch.encode('utf-8'))
+                bounds.add(acc)
+            if s_ not in bounds or e_ not in bounds or 'INVALIDSPAN' in v or 'SLICEPANIC' in v:
+                bad += 1
+                run.violation('bump-boundary', dict(config=name, request=rq, observed=v,
+                                                    what='after bump(%s) (%s) the span %d..%d of a str lexer is not on char boundaries inside the source' % (t[4], parts[1], s_, e_)),
+                              key='bumpb|' + rq)
+    return dict(evaluations=n, failures=bad)
